@@ -197,7 +197,8 @@ let gen_lz4_constructed r (target : int) : lz4seq list * byte list =
     let lits = List.init nl (fun _ -> byte_of_int (if rbool r then rbyte r else 97 + rint r 3)) in
     let avail = !produced + nl in
     let ml = match rint r 10 with 0 -> 4 | 1 -> 18 | 2 -> 19 | 3 -> 20 | 4 -> 19 + 254 | 5 -> 19 + 255 | 6 -> 19 + 256 | 7 -> 19 + 510 | _ -> 4 + rint r 60 in
-    let maxoff = min avail 65535 in
+    (* far offsets are expensive for the (list based) model: only sometimes, never in the 64 KiB cases *)
+    let maxoff = min avail (if target > 20000 then 1024 else if rint r 4 = 0 then 65535 else 4096) in
     let off = match rint r 8 with
       | 0 -> 1 | 1 -> 2 | 2 -> 255 | 3 -> 256 | 4 -> maxoff | 5 -> 1 + rint r (min maxoff ml) | _ -> 1 + rint r maxoff in
     let off = max 1 (min off maxoff) in
@@ -212,7 +213,7 @@ let lz4_compress (v : string) : byte list =
   let n = String.length v in
   let b = Buffer.create (n + 16) in
   let emit_len x = let x = ref x in while !x >= 255 do Buffer.add_char b '\255'; x := !x - 255 done; Buffer.add_char b (Char.chr !x) in
-  let ops = lz_items (String.sub v 0 (max 0 (n - 5))) ~minlen:4 ~maxlen:100000 ~maxoff:65535 in
+  let ops = lz_items (String.sub v 0 (max 0 (n - 5))) ~minlen:4 ~maxlen:600 ~maxoff:65535 in   (* the list-based model is quadratic in the length of one match *)
   let lit = Buffer.create 64 in
   let flush_seq off ml =
     let nl = Buffer.length lit in
@@ -398,7 +399,125 @@ let case_cap r =
   let raw = pick r [| -1; 0; 1; n * 256 - 1; n * 256; n * 256 + 1; 1 lsl 30; -(1 lsl 40); rint r 100000 |] in
   emit ~fn:"decompressCap" ~tag:"cap" ~s:"-" ~m:(zs (decompressCap (zi raw) (zi n))) [ string_of_int raw; string_of_int n ]
 
-let case_pages r k = case_pointer r
+(* ---------------- TOAST relation files (heap pages written with the C02 reference writer) ---------------- *)
+let c_chunk (id : z) (seq : z) (d : byte list) = zs id ^ ":" ^ zs seq ^ ":" ^ hexf d
+let c_mchunks (r : tOASTChunk list res) : string =
+  c_res (fun cs -> c_list (List.map (fun c -> c_chunk c.chunkID c.chunkSeq c.data) cs)) r
+
+(* infomask values: HEAP_HASVARWIDTH always; visible = XMIN_COMMITTED and (XMAX_INVALID or not XMAX_COMMITTED) *)
+let visible_masks = [| 0x0902; 0x0102; 0x0912; 0x0182 |]
+let dead_masks = [| 0x0502; 0x0002; 0x0a02; 0x0402; 0x0d02 land 0xf5ff |]   (* deleted / insert not committed / aborted *)
+
+let mk_tuple r (visible : bool) (f : vl_form) (c : chunk) : tup =
+  { tp_head = rbytes r 18; tp_natts = zi 3; tp_flags2 = zi 0;
+    tp_infomask = zi (pick r (if visible then visible_masks else dead_masks));
+    tp_hoff = zi 24; tp_mid = [ byte_of_int 0 ]; tp_data = enc_chunk_tuple f c }
+
+(* lay tuples out downward from the end of the page, MAXALIGNed, line pointers in the given order *)
+let mk_page r (tuples : tup list) : page =
+  let n = List.length tuples in
+  let lower = 24 + 4 * n in
+  let body = Bytes.make (8192 - lower) '\000' in
+  let upper = ref 8192 in
+  let lps = List.map (fun t ->
+      let img = strb (enc_tuple t) in
+      let len = String.length img in
+      upper := (!upper - len) land (lnot 7);
+      Bytes.blit_string img 0 body (!upper - lower) len;
+      ({ lp_off = zi !upper; lp_flags = zi 1; lp_len = zi len }, Some t)) tuples in
+  (* a few unused / dead line pointers in between *)
+  { pg_lsn_etc = rbytes r 12; pg_upper = zi !upper; pg_special = zi 8192; pg_version = zi 4; pg_prune = rbytes r 4;
+    pg_lps = lps; pg_body = bstr (Bytes.to_string body) }
+
+let tuple_size (t : tup) = 24 + List.length t.tp_data
+(* split the tuple list into pages by available space *)
+let paginate r (tuples : tup list) : block list =
+  let pages = ref [] and cur = ref [] and used = ref 24 in
+  List.iter (fun t ->
+      let need = ((tuple_size t + 7) land (lnot 7)) + 4 in
+      if !used + need > 8192 - 8 || (!cur <> [] && rint r 12 = 0) then begin
+        pages := List.rev !cur :: !pages; cur := []; used := 24 end;
+      cur := t :: !cur; used := !used + need) tuples;
+  if !cur <> [] then pages := List.rev !cur :: !pages;
+  let blocks = List.concat (List.map (fun ts -> (if rint r 8 = 0 then [ BZero ] else []) @ [ BPage (mk_page r ts) ]) (List.rev !pages)) in
+  blocks
+
+(* a TOAST relation: 1..50 values, chunk sizes as PostgreSQL (1996) or small, rows shuffled physically,
+   dead versions of some rows (same id/seq, different bytes), returns file bytes and the visible rows in physical order *)
+let gen_relation r ~(values : (ZA.t * byte list) list) : byte list * chunk list =
+  let rows = List.concat (List.map (fun (id, payload) ->
+      let size = pick r [| 1996; 1996; 1996; 500; 100; 2000 |] in
+      let size = if List.length payload / size > 40 then 1996 else size in
+      List.map (fun c -> (true, c)) (chunks_of (zz id) (nat_of_int size) payload)) values) in
+  let dead = List.concat (List.map (fun (_, c) ->
+      if rint r 6 = 0 then [ (false, { c with ck_data = rbytes r (1 + rint r (min 300 (List.length c.ck_data + 5))) }) ] else []) rows) in
+  let all = shuffle r (rows @ dead) in
+  let tuples = List.map (fun (vis, c) ->
+      let f = if List.length c.ck_data <= 126 && rint r 3 = 0 then VShort else VLong in
+      mk_tuple r vis f c) all in
+  let blocks = paginate r tuples in
+  let tl = if rint r 4 = 0 then rbytes r (1 + rint r 300) else [] in
+  (enc_file blocks tl, List.map snd (List.filter fst all))
+
+let c_stats_spec (rel : z) (cs : chunk list) : string =
+  match cs with [] -> "nil" | _ ->
+    let ids = List.sort (fun a b -> ZA.compare (zarith_of_z a) (zarith_of_z b)) (ids_of cs) in
+    let counts = List.sort_uniq compare (List.map (fun id -> iz (count_of cs id)) ids) in
+    c_rec [ "rel", zs rel; "chunks", string_of_int (List.length cs); "unique", string_of_int (List.length ids);
+            "size", zs (total_bytes cs); "max", zs (max_count cs);
+            "dist", c_list (List.map (fun k -> string_of_int k ^ ":" ^ zs (values_with_count cs (zi k))) counts);
+            "values", c_list (List.map (fun id -> zs id ^ ":" ^ zs (count_of cs id) ^ ":" ^ zs (total_bytes (chunks_with cs id))) ids);
+            "avg", "ok" ]
+let c_stats_model (r : tOASTVerboseInfo option res) : string =
+  c_res (function None -> "nil" | Some i ->
+    let dist = List.sort (fun (a, _) (b, _) -> compare (iz a) (iz b)) i.ti_dist in
+    let vals = List.sort (fun a b -> ZA.compare (zarith_of_z a.vi_id) (zarith_of_z b.vi_id)) i.ti_values in
+    c_rec [ "rel", zs i.ti_relid; "chunks", zs i.ti_total_chunks; "unique", zs i.ti_unique;
+            "size", zs i.ti_total_size; "max", zs i.ti_max;
+            "dist", c_list (List.map (fun (k, v) -> zs k ^ ":" ^ zs v) dist);
+            "values", c_list (List.map (fun v -> zs v.vi_id ^ ":" ^ zs v.vi_num ^ ":" ^ zs v.vi_size) vals);
+            "avg", "ok" ]) r
+
+let case_pages r k =
+  let nvals = pick r [| 1; 2; 3; 5; 10; 1 + rint r 50 |] in
+  let ids = List.sort_uniq ZA.compare (List.init nvals (fun i -> if i > 0 && rint r 3 = 0 then ZA.of_int (16384 + rint r 40) else gen_id r)) in
+  let big = List.length ids <= 6 in
+  let values = List.map (fun id -> (id, rbytes r (if big then pick r [| 1; 50; 126; 127; 1996; 1997; 2500; 1 + rint r 6000 |]
+                                                      else pick r [| 1; 50; 126; 127; 300; 1 + rint r 600 |]))) ids in
+  let ct = if rbool r then rbytes r 9 else [] in
+  match rint r 6 with
+  | 0 | 1 ->
+    let file, vis_rows = gen_relation r ~values in
+    let s = c_list (List.map (fun c -> c_chunk c.ck_id c.ck_seq c.ck_data) vis_rows) in
+    emit ~fn:"ReadTOASTTable" ~tag:"table" ~s ~m:(c_mchunks (readTOASTTable { vis = file; tail = ct })) [ hexf file; hexf ct ]
+  | 2 | 3 ->
+    let file, vis_rows = gen_relation r ~values in
+    let rel = zz (gen_id r) in
+    let order = match readTOASTTable { vis = file; tail = ct } with Ok cs -> first_seen_ids cs | Panic -> [] in
+    emit ~fn:"GetTOASTVerboseInfo" ~tag:"stats" ~s:(c_stats_spec rel vis_rows)
+      ~m:(c_stats_model (getTOASTVerboseInfo rel { vis = file; tail = ct } order)) [ zs rel; hexf file; hexf ct ]
+  | 4 ->
+    (* end to end: heap file -> LoadTOASTTable -> ReadValue(pointer bytes) *)
+    let id = List.hd ids and rel = gen_id r in
+    let out, payload, p, kind = gen_stored r ~big:false id rel in
+    let values = (id, payload) :: List.tl values in
+    let file, _ = gen_relation r ~values in
+    let expect = if kind = "plain" then c_val payload else if ptr_is_compressed p then c_val out else "-" in
+    let m = match loadTOASTTable [] (zz rel) { vis = file; tail = ct } with
+      | Ok st -> c_valres (readValue_m st { vis = enc_ptr p; tail = [] }) | Panic -> "panic" in
+    emit ~fn:"TableReadValue" ~tag:("e2e_" ^ kind) ~s:expect ~m [ zs (zz rel); hexf file; hexf ct; hexf (enc_ptr p) ]
+  | _ ->
+    (* damaged relation files: model vs implementation only (short rows, empty file, random page) *)
+    let file = match rint r 3 with
+      | 0 -> []
+      | 1 -> let t = { (mk_tuple r true VLong { ck_id = zi 5; ck_seq = zi 0; ck_data = rbytes r 10 }) with
+                       tp_data = rbytes r (pick r [| 0; 7; 8; 9; 12 |]) } in
+        enc_file [ BPage (mk_page r [ t ]) ] []
+      | _ -> let t = { (mk_tuple r true VLong { ck_id = zi 5; ck_seq = zi 0; ck_data = rbytes r 10 }) with
+                       tp_data = rbytes r 8 @ List.map byte_of_int [ pick r [| 1; 3; 0x05; 0xff; 0x10; 0x02 |]; rbyte r; 0; 0; 1; 2 ] } in
+        enc_file [ BPage (mk_page r [ t ]) ] [] in
+    emit ~fn:"ReadTOASTTable" ~tag:(if file = [] then "empty" else "table_damaged") ~s:"-"
+      ~m:(c_mchunks (readTOASTTable { vis = file; tail = ct })) [ hexf file; hexf ct ]
 
 let gen_case r k =
   match k mod 20 with
@@ -408,7 +527,7 @@ let gen_case r k =
   | 11 -> case_lz4_indep r
   | 12 | 13 | 14 | 15 -> case_reassemble r ~big:(k mod 400 = 12)
   | 16 | 17 -> case_readvalue r
-  | 18 -> case_cap r
+  | 18 -> if k mod 60 = 18 then case_cap r else case_pages r k
   | _ -> case_pages r k
 
 let gen seed n =
